@@ -1,16 +1,20 @@
 r"""C45 - end-of-line filters round-trip canonical content
 (breezy/filters/eol.py: _to_lf_converter, _to_crlf_converter,
 _eol_filter_stack_map; breezy/filters/__init__.py: filtered_output_bytes,
-filtered_input_file; breezy/bzr/workingtree_4.py: ContentFilterAwareSHA1Provider).
+filtered_input_file, internal_size_sha_file_byname, FilteredStat,
+_get_filter_stack_for; breezy/bzr/workingtree_4.py:
+ContentFilterAwareSHA1Provider.sha1 / .stat_and_sha1; breezy/tree.py:
+_content_filter_stack; breezy/rules.py).
 
 Model: lean/BreezyVerif/Model/C45.lean; theorems in Props/C45.lean (all byte
-strings, all settings, both platforms), T1 in Props/C45T1.lean.
+strings, all settings, both platforms, abstract hash function), T1 in
+Props/C45T1.lean.
 
 T1 (every run): Generated/C45.lean is rewritten from eol.py: the table
 `_eol_filter_stack_map` (sorted by key), the `_native_output` platform switch,
 and the byte constants / shape of the two converters; Lean re-proves that the
 regenerated table has exactly the model's entries and restates the theorems
-for it.
+(round trip, binary, checkout_clean, FilteredStat size) for it.
 
 T2 (every run):
  * both converters on every byte string over {CR, LF, NUL, a} up to length L
@@ -20,21 +24,52 @@ T2 (every run):
    filtered_input_file (write, read, read-after-write); the win32 table is
    obtained by executing a private copy of eol.py with sys.platform patched;
    random chunkings of the output side; unknown keys (error kind only);
- * a dirstate tree per setting with an `eol` rule in BRZ_HOME/rules: canonical
-   files are committed, the branch is checked out afresh, the bytes on disk are
-   compared with the model and iter_changes() against the basis is evaluated.
+ * real dirstate trees (format 2a = WorkingTree6; the ordered-sections trees
+   also 1.14 = WorkingTree5) with rules in BRZ_HOME/rules; canonical
+   files are committed, the branch is checked out afresh, and for every file:
+   bytes on disk (model `out`), iter_changes against the basis (model `chg`:
+   reportsChange with the identity as hash), get_file_text, get_file_sha1,
+   get_file_with_stat, ContentFilterAwareSHA1Provider(wt).sha1(abspath) and
+   .stat_and_sha1(abspath) called directly with str and bytes paths (model
+   `stat`: FilteredStat's `st_size or base.st_size` and the text that is
+   hashed), and a second commit.  The trees:
+     - ONE tree per platform table in which every setting applies to some
+       files (sections `[name *.k<i>]` in shuffled order, a section
+       `[name deep/*]` on the tree-relative path placed first, a section
+       that does not set eol, and paths no section matches): the stack is
+       chosen per path;
+     - the same tree with the registry's "eol" entry re-registered to the
+       win32 copy of eol.py (restored in a finally, _stack_cache cleared), so
+       `native*` write CRLF into a real checkout;
+     - ordered sections `[name *.txt]` K1, `[name *.c]` K2, `[name *]` K3
+       (quick one random combination; thorough every ordered pair K1 != K2
+       and the single `[name *]` rule for every setting);
+     - every setting gets a file larger than 65000 bytes (the buffer size of
+       stat_and_sha1 / internal_size_sha_file_byname; thorough also ~140 KB),
+       canonical for the setting by construction; the oracle looks at all of
+       them, the model at one per tree (thorough: all) because the driver
+       needs about a second for such a line.
+ * The model batches are handed to separate driver processes through files
+   and run while the implementation side of the next part is computed
+   (_submit/_join); a failing / timed-out driver is an infrastructure error.
 
 Oracle (independent of the model): for every setting and every canonical c
 without NUL: read(write(c)) == c; NUL => both converters and every stack are
-the identity; `exact` never changes anything; the CRLF reader only stores
-canonical content; settings named crlf* check out with CRLF only and settings
-named lf* check canonical text (without CR CR LF) out without any CRLF; the
-fresh checkout reports no changes and stores/reads back the committed bytes.
+the identity; `exact` and paths without an eol preference are never changed;
+the CRLF reader only stores canonical content; settings named crlf* check out
+with CRLF only and settings named lf* check canonical text (without CR CR LF)
+out without any CRLF (on the byte level and on disk in the real trees); text
+already in the form the setting's name promises for the repository is not
+changed by the reader; the fresh checkout reports no changes, stores/reads
+back the committed bytes, sha1 / stat_and_sha1 / get_file_sha1 give
+sha1(c), stat_and_sha1 and get_file_with_stat report st_size == len(c), and a
+commit in the fresh checkout records nothing.
 
 Finding (family "crlf-repo-cr-cr-lf"): the settings that store CRLF and write
 LF lose one CR of every "\r\r\n" (classifier: reader is _to_crlf_converter,
 writer is _to_lf_converter, content without NUL contains b"\r\r\n"); theorem
-`crlf_repo_witness`, exact characterisation `roundtrip_iff`.
+`crlf_repo_witness`, exact characterisation `roundtrip_iff`; on the checkout
+level `checkout_dirty_iff` / `checkout_dirty_witness`.
 
 Observation (not a violation of C45, counted as `lf-reader-noncanonical`):
 _to_lf_converter is not idempotent ("\r\r\n" -> "\r\n" -> "\n"), so a commit
@@ -54,12 +89,26 @@ treated as known; each reported as VIOLATION with the concrete input shown):
  M8b ContentFilterAwareSHA1Provider.sha1 ignores filters   fresh checkout of b'a\n\ra\r' reports a change
  M9 filtered_input_file skips the first filter       native: b'a\r\r\n' ... read back differs
  M10 win32 `_native_output = _to_lf_converter`        native (win32) must write CRLF
- (M8 the same in stat_and_sha1: not reached by checkout / status / commit /
-  revert / get_file_sha1 - behaviourally equivalent, stays clean)
+ second round (direct provider calls, per-path rules, win32 tree, big files):
+ M8 stat_and_sha1 ignores the filters (`if False:`)  crlf: stat_and_sha1 of the checkout of b'a\n\n\n' (disk
+                                                     b'a\r\n\r\n\r\n') hashes to the raw file's sha1 (+48 model mismatches)
+ M11 FilteredStat drops the size override            crlf: stat_and_sha1 reports st_size 7 for canonical 4 bytes
+ M12 _stack_cache keyed by the preference names only registry returns a different stack for native (+60 mismatches)
+ M13 _content_filter_stack looks up [''] not [path]  crlf: checkout of sub/f042.k3 wrote b'a\n\n\n', its stack gives CRLF
+ M14 filtered_input_file reads f.read(65000)          77120-byte file: reader changes text already in repository form
+ M15 provider.sha1 looks up dirname(relpath)          crlf: fresh checkout of b'a\n\n\n' reports a change
+ M16 get_file_with_stat forgets FilteredStat          crlf: get_file_with_stat gives st_size 7 for 4 bytes
+ M17 internal_size_sha_file_byname hashes 65000 bytes 77120-byte file under exact: fresh checkout reports a change
+                                                     (only the files > 65000 bytes show it)
+ M18 both provider methods look up basename(relpath)  native-with-crlf-in-repo via `[name deep/*]`: reports a change
+                                                     (only the tree-relative rule shows it)
  H1 harmless: dict entries reordered + reader loop as comprehension: clean, 22/22
  H2 harmless but shape-changing (`content` renamed, `find() >= 0`): extraction
     fails, Generated/C45.lean is invalidated, T1 lemmas recorded as
     t1_unproved, exhaustive T2 clean: exit 0.
+ H3 harmless: stat_and_sha1 tests `len(filters) > 0`, FilteredStat uses
+    `base.st_size if st_size is None else st_size` (equivalent by
+    `filtered_size_zero_iff`): clean.
 """
 import ast
 import io
@@ -75,19 +124,28 @@ THEOREMS = [
     "binary_untouched", "exact_identity", "output_chunking", "toLf_toCrlf", "toCrlf_toLf_iff",
     "roundtrip_crlf_repo_fixed", "toCrlf_canonical", "toLf_not_idempotent_witness",
     "crlf_settings_write_crlf", "lf_settings_write_lf", "crlf_repo_settings_store_crlf",
+    "filtered_size_zero_iff", "stat_size_canonical", "checkout_clean", "checkout_dirty_iff",
+    "checkout_dirty_witness", "checkout_clean_binary", "unset_pref_exact", "prefStack_some",
 ]
 T1_EQUALITY_THEOREMS = ["eol_map_gen_eq", "eol_map_gen_keys_nodup", "converter_consts_gen_eq",
-                        "roundtrip_iff_generated", "binary_untouched_generated"]
-RULE = ("case = (platform, eol setting, content) / (converter, content) / (setting, file content in a "
-        "checked-out tree); exhaustive over {CR,LF,NUL,a}^<=L for converters and settings, random wider "
-        "strings and chunkings; non-trivial = content contains CR or LF and the setting is not 'exact'")
+                        "roundtrip_iff_generated", "binary_untouched_generated", "checkout_clean_generated",
+                        "filtered_size_zero_iff_generated"]
+RULE = ("case = (platform, eol setting, content) / (converter, content) / (platform table, setting the path gets "
+        "from the rules file, file content in a checked-out tree); exhaustive over {CR,LF,NUL,a}^<=L for converters "
+        "and settings, random wider strings and chunkings, files > 65000 bytes in the trees; non-trivial = content "
+        "contains CR or LF and the setting is neither 'exact' nor unset")
 ASSUMPTIONS = [
-    "the win32 variant of the table is exercised by executing a copy of eol.py with sys.platform patched to 'win32'",
-    "'reports no changes' is modelled as read(write(c)) == c; SHA-1 and the dirstate are exercised, not modelled",
+    "the win32 variant of the table is exercised by executing a copy of eol.py with sys.platform patched to 'win32'; "
+    "for the win32 tree the filter registry's 'eol' entry is re-registered to that copy for the duration",
+    "'reports no changes' is modelled as sha(read(disk)) == recorded for an abstract hash function (reportsChange); "
+    "the driver instantiates the hash with the identity; SHA-1 itself, the dirstate's stat cache and the rules "
+    "globbing are exercised on real trees, not modelled",
 ]
 TRUSTED = [
     "bytes.replace and re.sub with a fixed-width lookbehind are modelled by replCrlf / subUnixNl (tied by the exhaustive converter comparison)",
     "tools/extract.py-style AST extraction in this module (T1)",
+    "which rule section a path matches is decided by the oracle's own reading of the rules file (_expected_key: "
+    "`*`, `*.ext`, `dir/*`, first match wins) and compared with the real checkout, sha1 provider and iter_changes",
 ]
 
 ALPHA = [b"\r", b"\n", b"\x00", b"a"]
@@ -273,6 +331,72 @@ def _rand_bytes(rng, maxlen):
     return out
 
 
+# ---------------------------------------------------------------- model calls
+# The exhaustive batches keep the Lean driver busy for several seconds each.  A batch is written to
+# a file in the scratch directory and handed to its own driver process (the executable
+# vlib.lean.Driver uses, same line protocol as ctx.model), which runs while the implementation side
+# of the next part is computed; _join waits for the processes in order and compares on the main
+# thread.  _join is always called before run / widen / replay return.  A driver that is missing,
+# fails, times out or answers a different number of lines is an infrastructure error (exit 2).
+_PENDING = []
+_MODEL_TIMEOUT = 1200
+
+
+def _submit(ctx, cases, lines, outs, post=None):
+    import subprocess
+    from vlib import lean
+    if not lines:
+        return
+    if sum(len(x[3]) for x in _PENDING) + len(lines) > 500000:
+        _join(ctx)      # thorough tier: keep the memory for pending batches bounded
+    exe = lean.Driver(ctx.pid).exe      # InfraError if the driver is not built
+    for l in lines:
+        if "\n" in l:
+            raise ValueError("newline inside protocol line: %r" % l[:80])
+    d = env.fresh_dir("c45model")
+    with open(os.path.join(d, "in"), "w") as f:
+        f.write("\n".join(lines) + "\n")
+    with open(os.path.join(d, "in"), "rb") as fin, open(os.path.join(d, "out"), "wb") as fout, \
+            open(os.path.join(d, "err"), "wb") as ferr:
+        proc = subprocess.Popen([exe], stdin=fin, stdout=fout, stderr=ferr)
+    _PENDING.append((proc, d, cases, lines, outs, post))
+
+
+def _join(ctx):
+    import shutil
+    import subprocess
+    try:
+        while _PENDING:
+            proc, d, cases, lines, outs, post = _PENDING.pop(0)
+            try:
+                rc = proc.wait(timeout=_MODEL_TIMEOUT)
+            except subprocess.TimeoutExpired:
+                raise env.InfraError("vdriver timed out after %d s on %d lines" % (_MODEL_TIMEOUT, len(lines)))
+            if rc != 0:
+                with open(os.path.join(d, "err"), "rb") as f:
+                    raise env.InfraError("vdriver failed (%s): %s" % (rc, f.read().decode("utf-8", "replace")[-2000:]))
+            with open(os.path.join(d, "out"), "rb") as f:
+                replies = f.read().decode().split("\n")
+            shutil.rmtree(d, ignore_errors=True)
+            if replies and replies[-1] == "":
+                replies.pop()
+            if len(replies) != len(lines):
+                raise env.InfraError("vdriver answered %d lines for %d requests" % (len(replies), len(lines)))
+            for case, line, impl, m in zip(cases, lines, outs, replies):
+                ctx.traces += 1
+                if post is not None:
+                    m = post(line, m)
+                if impl != m:
+                    ctx.mismatch(case, impl[:200], m[:200], line=line[:300], tie="T2")
+    finally:
+        for x in _PENDING:
+            try:
+                x[0].kill()
+            except OSError:
+                pass
+        del _PENDING[:]
+
+
 # ---------------------------------------------------------------- parts of the run
 def _converters(ctx, eolmod, contents, tag):
     cases, lines, outs = [], [], []
@@ -289,7 +413,7 @@ def _converters(ctx, eolmod, contents, tag):
             cases.append([tag, op, hx(c)])
             lines.append("%s %s" % (op, hx(c)))
             outs.append(hx(out))
-    ctx.diff(cases, lines, outs)
+    _submit(ctx, cases, lines, outs)
 
 
 def _settings(ctx, filters, tables, contents, tag, rng=None):
@@ -365,7 +489,7 @@ def _settings(ctx, filters, tables, contents, tag, rng=None):
                     cases.append([tag, op, win, key, hx(c)])
                     lines.append("%s %s %s %s" % (op, W, key, arg))
                     outs.append(hx(out))
-    ctx.diff(cases, lines, outs)
+    _submit(ctx, cases, lines, outs)
 
 
 def _unknown_keys(ctx, eolmod):
@@ -384,39 +508,204 @@ def _unknown_keys(ctx, eolmod):
         cases.append(["unknown-key", key])
         lines.append("in F %s 610a" % key)
         outs.append(out)
-    ctx.diff(cases, lines, outs)
+    _submit(ctx, cases, lines, outs)
 
 
-def _tree_part(ctx, filters, eolmod, key, contents, fmt="2a"):
-    """commit canonical files under an eol rule, check out afresh, look at disk and iter_changes"""
-    from breezy import rules
-    stack = eolmod.eol_lookup(key)
+def _canonical_sample(ctx, filters, stack, L, k, rng):
+    pool = [c for c in _strings(L) if b"\x00" not in c and _read(ctx, filters, stack, c) == c
+            and (b"\r" in c or b"\n" in c)]
+    return rng.sample(pool, min(k, len(pool)))
+
+
+# ---------------------------------------------------------------- trees
+BIG_MIN = 65000          # stat_and_sha1 / internal_size_sha_file_byname open with a 65000 byte buffer
+
+
+def _r(b, n=60):
+    """repr of a byte string for messages, shortened"""
+    return repr(b) if len(b) <= n else "%r...(%d bytes, sha1 %s)" % (b[:n], len(b), _sha(b)[:12])
+
+
+def _sha(b):
+    import hashlib
+    return hashlib.sha1(b).hexdigest()
+
+
+def _cid(c):
+    """canonical, small identification of a content in ctx.case"""
+    return hx(c) if len(c) <= 64 else "sha1:%s:%d" % (_sha(c), len(c))
+
+
+def _repo_kind(key):
+    """how the setting *names* say text is stored: 'crlf', 'lf' or None (as is)"""
+    if key is None or key == "exact":
+        return None
+    return "crlf" if key.endswith("-with-crlf-in-repo") else "lf"
+
+
+def _canonicalise(key, d):
+    """the oracle's own canonical form of text for a setting (no breezy code involved)"""
+    kind = _repo_kind(key)
+    if kind is None or b"\x00" in d:
+        return d
+    if kind == "crlf":
+        return BARE_LF.sub(b"\r\n", d)
+    while b"\r\n" in d:
+        d = d.replace(b"\r\n", b"\n")
+    return d
+
+
+def _big_content(rng, key, size):
+    """> BIG_MIN bytes of mixed lines with CR / LF patterns, canonical for `key`, no CR CR LF
+    for the CRLF-in-repo settings (that family is covered by the small files)"""
+    pool = [b"\r\n", b"\n", b"\r", b"\n\r", b"\r\n", b"\n", b"a line of text", b"\t", b" ", b"x", b"\xff\xfe",
+            b"word", b"\x1a", b"\x85", b"The quick brown fox"]
+    parts, n = [], 0
+    while n < size + size // 8:
+        p = rng.choice(pool)
+        parts.append(p)
+        n += len(p)
+    c = _canonicalise(key, b"".join(parts))
+    if _repo_kind(key) == "crlf":
+        while b"\r\r\n" in c:
+            c = c.replace(b"\r\r\n", b"\r\n")
+    if len(c) < size:
+        c += b"a" * (size - len(c))
+    return c
+
+
+class _Acc:
+    """model requests of all trees of a run, sent to the driver in one batch"""
+
+    def __init__(self):
+        self.cases, self.lines, self.outs = [], [], []
+
+    def add(self, case, line, out):
+        self.cases.append(case)
+        self.lines.append(line)
+        self.outs.append(out)
+
+    def flush(self, ctx):
+        _submit(ctx, self.cases, self.lines, self.outs, post=_stat_reply)
+        self.cases, self.lines, self.outs = [], [], []
+
+
+def _stat_reply(line, m):
+    """the model answers `stat` with `size text`; the implementation can only show sha1(text)"""
+    if line.startswith("stat ") and " " in m:
+        size, text = m.split(" ", 1)
+        try:
+            return "%s %s" % (size, _sha(bytes.fromhex(text) if text != "-" else b""))
+        except ValueError:
+            return m
+    return m
+
+
+def _expected_key(sections, path):
+    """the oracle's own reading of the rules file: the first section whose glob matches decides
+    (globs used here: `*` and `*.ext` on the base name, `dir/*` on the tree-relative path)"""
+    base = path.rsplit("/", 1)[-1]
+    for glob, key in sections:
+        if glob.endswith("/*"):
+            # directory pattern: the direct children of that directory
+            if path.startswith(glob[:-1]) and "/" not in path[len(glob) - 1:]:
+                return key
+        elif glob == "*" or (glob.startswith("*") and base.endswith(glob[1:])):
+            return key
+    return None
+
+
+def _rules_text(sections):
+    out = []
+    for glob, key in sections:
+        out.append("[name %s]" % glob)
+        out.append("eol = %s" % key if key is not None else "verif_other_pref = 1")
+    return "\n".join(out) + "\n"
+
+
+def _tree_part(ctx, filters, mod, win, sections, files, acc, fmt="2a", model_names=None):
+    """sections: [(glob, key | None)] written to BRZ_HOME/rules in this order (None = a section
+    that does not set `eol`); files: [(path, key | None, content)] with the key the path must get
+    (None = no rule matches / eol unset).  Commit the files, check the branch out afresh, look at
+    the bytes on disk, iter_changes, the texts read back, ContentFilterAwareSHA1Provider.sha1 /
+    .stat_and_sha1 on every file, and a second commit.  `win`: the registry's "eol" entry resolves
+    to the win32 copy of eol.py for the duration.  Files larger than BIG_MIN are compared with
+    the model only if their path is in `model_names` (the driver needs seconds per such line)."""
+    from breezy import osutils, rules
+    from breezy.bzr import workingtree_4
+    W = "T" if win else "F"
+    reg = filters.filter_stacks_registry
+    orig_lookup = reg.get("eol")
     rp = rules.rules_path()
     os.makedirs(os.path.dirname(rp), exist_ok=True)
     with open(rp, "w") as f:
-        f.write("[name *]\neol = %s\n" % key)
-    rules.reset_rules()
-    filters._stack_cache.clear()
+        f.write(_rules_text(sections))
     try:
+        if win:
+            reg.register("eol", mod.eol_lookup, override_existing=True)
+        rules.reset_rules()
+        filters._stack_cache.clear()
+        if filters._get_filter_stack_for((("eol", "native"),)) != mod.eol_lookup("native"):
+            raise env.InfraError("C45: the filter registry does not resolve 'eol' to the %s table"
+                                 % ("win32" if win else "host"))
+        filters._stack_cache.clear()
+        stacks = {key: (mod.eol_lookup(key) if key is not None else []) for _g, key in sections}
+        stacks[None] = []
+        kept = []
+        for path, key, c in files:
+            if _expected_key(sections, path) != key:
+                raise env.InfraError("C45: generator error, %s should get %r under %r" % (path, key, sections))
+            rd = _read(ctx, filters, stacks[key], c)
+            if rd == c:
+                kept.append((path, key, c))
+            elif _canonicalise(key, c) == c:
+                # already in the form the setting's name promises for the repository (LF only /
+                # CRLF only / anything for 'exact' and binary): the reader must not change it
+                ctx.violation(dict(kind="tree", win=win, key=key, fmt=fmt, name=path, sections=[list(x) for x in sections],
+                                   c=hx(c)),
+                              "%s%s: the reader changes text that is already in the repository form: %s is read as %s"
+                              % (key, " (win32)" if win else "", _r(c), _r(rd)))
+                kept.append((path, key, c))
+            else:
+                ctx.count("tree-skipped-noncanonical")
+        files = kept
         wt = env.make_tree(fmt)
-        names = []
-        ok = [c for c in contents if _read(ctx, filters, stack, c) == c]
-        ctx.count("tree-skipped-noncanonical", len(contents) - len(ok))
-        contents = ok
-        for i, c in enumerate(contents):
-            name = "f%02d" % i
-            with open(os.path.join(wt.basedir, name), "wb") as f:
+        dirs = sorted({os.path.dirname(p) for p, _k, _c in files if os.path.dirname(p)})
+        for d in dirs:
+            os.makedirs(os.path.join(wt.basedir, d), exist_ok=True)
+        for path, _key, c in files:
+            with open(os.path.join(wt.basedir, path), "wb") as f:
                 f.write(c)
-            names.append(name)
-        wt.add(names)
+        names = [p for p, _k, _c in files]
+        wt.add(dirs + names)
         rev1 = wt.commit("add")
         wt2 = wt.controldir.sprout(os.path.join(env.fresh_dir("co"), "t")).open_workingtree()
+        if not wt2.supports_content_filtering():
+            raise env.InfraError("C45: format %s working tree does not support content filtering" % fmt)
+        provider = wt2._sha1_provider()
+        if not isinstance(provider, workingtree_4.ContentFilterAwareSHA1Provider):
+            ctx.violation(dict(kind="provider", fmt=fmt), "the working tree's SHA1 provider is %r, not "
+                          "ContentFilterAwareSHA1Provider" % (provider,))
+        provider = workingtree_4.ContentFilterAwareSHA1Provider(wt2)
+        shas, stats, fstat = {}, {}, {}
         with wt2.lock_read():
             basis = wt2.basis_tree()
             with basis.lock_read():
                 changed = {ch.path[1] or ch.path[0] for ch in wt2.iter_changes(basis)}
                 stored = {n: basis.get_file_text(n) for n in names}
             readback = {n: wt2.get_file_text(n) for n in names}
+            for i, n in enumerate(names):
+                ap = wt2.abspath(n)
+                # the provider is handed str or bytes paths (it calls safe_unicode)
+                a1 = provider.sha1(ap if i % 2 else ap.encode("utf-8"))
+                st, a2 = provider.stat_and_sha1(ap.encode("utf-8") if i % 2 else ap)
+                shas[n] = (a1, a2, wt2.get_file_sha1(n))
+                stats[n] = st.st_size
+                fobj, st2 = wt2.get_file_with_stat(n)
+                try:
+                    fstat[n] = (st2.st_size, fobj.read())
+                finally:
+                    fobj.close()
         # a commit in the fresh checkout must not see any file as modified either
         wt2.commit("nothing changed")
         with wt2.lock_read():
@@ -424,39 +713,165 @@ def _tree_part(ctx, filters, eolmod, key, contents, fmt="2a"):
             with basis2.lock_read():
                 recommitted = {n for n in names if basis2.get_file_revision(n) != rev1}
                 stored2 = {n: basis2.get_file_text(n) for n in names}
-        cases, lines, outs = [], [], []
-        for name, c in zip(names, contents):
-            case = dict(kind="tree", key=key, fmt=fmt, c=hx(c))
+        for name, key, c in files:
+            stack = stacks[key]
+            case = dict(kind="tree", win=win, key=key, fmt=fmt, name=name, sections=[list(s) for s in sections],
+                        c=hx(c))
             with open(os.path.join(wt2.basedir, name), "rb") as f:
                 disk = f.read()
-            fam = _family(eolmod, stack, c)
+            fam = _family(mod, stack, c)
+            sk = "%s%s" % (key, " (win32)" if win else "")
+            want_sha = osutils.sha_string(c)
             if stored[name] != c:
-                ctx.violation(case, "%s: committed canonical %r but the repository stores %r" % (key, c, stored[name]))
+                ctx.violation(case, "%s: committed canonical %s but the repository stores %s" % (sk, _r(c), _r(stored[name])))
             if disk != _write(filters, stack, [c]):
-                ctx.violation(case, "%s: checkout wrote %r, filtered_output_bytes gives %r" % (key, disk, _write(filters, stack, [c])))
+                ctx.violation(case, "%s: checkout of %s wrote %s for %s, its stack's filtered_output_bytes gives %s"
+                              % (sk, name, _r(disk), _r(c), _r(_write(filters, stack, [c]))))
+            if key in (None, "exact") and disk != c:
+                ctx.violation(case, "%s: %s has no eol conversion but %s was checked out as %s" % (sk, name, _r(c), _r(disk)))
+            if key is not None and b"\x00" not in c:
+                # what the setting names promise about the bytes in the real working tree
+                if (key in ("crlf", "crlf-with-crlf-in-repo") or (win and key.startswith("native"))) and BARE_LF.search(disk):
+                    ctx.violation(case, "%s must write CRLF but the checkout of %s is %s on disk" % (sk, _r(c), _r(disk)))
+                if ((key in ("lf", "lf-with-crlf-in-repo") or (not win and key.startswith("native")))
+                        and b"\r\r\n" not in c and b"\r\n" in disk):
+                    ctx.violation(case, "%s must write LF but the checkout of canonical %s is %s on disk" % (sk, _r(c), _r(disk)))
             if name in changed:
-                ctx.violation(case, "%s: fresh checkout of canonical %r (on disk %r) reports a change" % (key, c, disk), family=fam)
+                ctx.violation(case, "%s: fresh checkout of canonical %s (on disk %s) reports a change" % (sk, _r(c), _r(disk)), family=fam)
             if readback[name] != c:
-                ctx.violation(case, "%s: fresh checkout reads %r back as %r" % (key, c, readback[name]), family=fam)
+                ctx.violation(case, "%s: fresh checkout reads %s back as %s" % (sk, _r(c), _r(readback[name])), family=fam)
             if name in recommitted or stored2[name] != c:
-                ctx.violation(case, "%s: a commit in the fresh checkout of canonical %r (on disk %r) records the file "
-                              "as modified (new text %r)" % (key, c, disk, stored2[name]), family=fam)
-            ctx.case(["tree", fmt, key, hx(c)], nontrivial=(key != "exact" and (b"\r" in c or b"\n" in c)))
-            ctx.count("tree-file:" + key)
-            cases.append(["tree-disk", key, hx(c)])
-            lines.append("out F %s %s" % (key, c.hex() or "_"))
-            outs.append(hx(disk))
-        ctx.diff(cases, lines, outs)
+                ctx.violation(case, "%s: a commit in the fresh checkout of canonical %s (on disk %s) records the file "
+                              "as modified (new text %s)" % (sk, _r(c), _r(disk), _r(stored2[name])), family=fam)
+            a1, a2, a3 = shas[name]
+            if a1 != want_sha:
+                ctx.violation(case, "%s: ContentFilterAwareSHA1Provider.sha1 of the fresh checkout of canonical %s (on disk %s) "
+                              "is %s, the sha1 of the canonical text is %s" % (sk, _r(c), _r(disk), a1, want_sha), family=fam)
+            if a2 != want_sha:
+                ctx.violation(case, "%s: ContentFilterAwareSHA1Provider.stat_and_sha1 of the fresh checkout of canonical %s "
+                              "(on disk %s) hashes to %s, the sha1 of the canonical text is %s" % (sk, _r(c), _r(disk), a2, want_sha),
+                              family=fam)
+            if a3 != want_sha:
+                ctx.violation(case, "%s: get_file_sha1 of the fresh checkout of canonical %s (on disk %s) is %s, not %s"
+                              % (sk, _r(c), _r(disk), a3, want_sha), family=fam)
+            if stats[name] != len(c):
+                ctx.violation(case, "%s: stat_and_sha1 of the fresh checkout of canonical %s (%d bytes; on disk %s, %d bytes) "
+                              "reports st_size %d" % (sk, _r(c), len(c), _r(disk), len(disk), stats[name]), family=fam)
+            if fstat[name] != (len(c), c):
+                ctx.violation(case, "%s: get_file_with_stat of the fresh checkout of canonical %s gives st_size %d and text %s"
+                              % (sk, _r(c), fstat[name][0], _r(fstat[name][1])), family=fam)
+            big = len(c) > BIG_MIN
+            ctx.case(["tree", fmt, win, key, _cid(c)], nontrivial=(key not in (None, "exact") and (b"\r" in c or b"\n" in c)))
+            ctx.count("tree-file:%s%s" % (key, ":win32" if win else ""))
+            if big:
+                ctx.count("tree-big-file")
+                if len(c) > 2 * BIG_MIN:
+                    ctx.count("tree-big-file>130000")
+                if model_names is None or name not in model_names:
+                    continue
+                ctx.count("tree-big-file-modelled")
+            mk = key if key is not None else "-"
+            cc = ["tree", W, mk, _cid(c)]
+            acc.add(cc + ["disk"], "out %s %s %s" % (W, mk, c.hex() or "_"), hx(disk))
+            acc.add(cc + ["stat"], "stat %s %s %s" % (W, mk, hx(disk)), "%d %s" % (stats[name], a2.decode("ascii")))
+            if not big:
+                acc.add(cc + ["changed"], "chg %s %s %s" % (W, mk, hx(c)), "T" if name in changed else "F")
     finally:
+        if win:
+            reg.register("eol", orig_lookup, override_existing=True)
         os.unlink(rp)
         rules.reset_rules()
         filters._stack_cache.clear()
 
 
-def _canonical_sample(ctx, filters, stack, L, k, rng):
-    pool = [c for c in _strings(L) if b"\x00" not in c and _read(ctx, filters, stack, c) == c
-            and (b"\r" in c or b"\n" in c)]
-    return rng.sample(pool, min(k, len(pool)))
+def _small_contents(ctx, filters, mod, key, k, rng):
+    """small files for one setting: empty, plain, binary, canonical strings with CR / LF"""
+    stack = mod.eol_lookup(key) if key is not None else []
+    contents = [b"", b"plain", b"bin\r\n\x00\n\r"] + _canonical_sample(ctx, filters, stack, 6, k, rng)
+    if _repo_kind(key) == "crlf":
+        contents.append(b"a\r\r\nb\r\n")
+    return contents
+
+
+def _all_keys_tree(ctx, filters, mod, win, acc, rng, k, big_sizes):
+    """ONE tree in which every setting (and 'no eol preference', twice: a section that does not
+    set eol, and paths no section matches) applies to some files: the stack is chosen per path.
+    Every setting also gets a file larger than BIG_MIN per size in big_sizes."""
+    order = list(KEYS)
+    rng.shuffle(order)
+    sections = [("*.k%d" % KEYS.index(key), key) for key in order]
+    sections.insert(rng.randint(0, len(sections)), ("*.dat", None))
+    # a rule on the tree-relative path, first in the file: it wins over the extension of the base name
+    deep_key = rng.choice([x for x in KEYS if x != "exact"])
+    sections.insert(0, ("deep/*", deep_key))
+    kinds = [(key, ".k%d" % KEYS.index(key)) for key in KEYS] + [(None, ""), (None, ".dat")]
+    files, n = [], 0
+    for other in [x for x in KEYS if x != deep_key] + [None]:
+        ext = ".k%d" % KEYS.index(other) if other is not None else ""
+        for c in _small_contents(ctx, filters, mod, deep_key, 2, rng)[3:]:
+            files.append(("deep/h%03d%s" % (n, ext), deep_key, c))
+            n += 1
+    for key, ext in kinds:
+        contents = _small_contents(ctx, filters, mod, key, k, rng)
+        if key is None:
+            contents += [b"a\r\nb\n\r\r\nc\r", b"\n"]
+        for c in contents:
+            d = ("sub/" if n % 3 == 0 else "sub/dir two/" if n % 7 == 0 else "")
+            files.append(("%sf%03d%s" % (d, n, ext), key, c))
+            n += 1
+    model_names = set()
+    nonexact = [x for x in KEYS if x != "exact"]
+    for si, size in enumerate(big_sizes):
+        # model comparison (driver time!): quick one setting, thorough all settings for the first
+        # size and two for the larger one; the oracle looks at every big file
+        if ctx.tier == "thorough" and si == 0:
+            modelled = set(KEYS) | {None}
+        else:
+            modelled = set(rng.sample(nonexact, 1 if ctx.tier != "thorough" else 2))
+        for key, ext in kinds[:-1]:
+            name = "%sbig%03d%s" % ("sub/" if n % 2 else "", n, ext)
+            files.append((name, key, _big_content(rng, key, size + rng.randint(0, 5000))))
+            if key in modelled:
+                model_names.add(name)
+            n += 1
+    _tree_part(ctx, filters, mod, win, sections, files, acc, model_names=model_names)
+
+
+def _trees(ctx, filters, eolmod, winmod, rng):
+    acc = _Acc()
+    k = ctx.pick(10, 40)
+    big_sizes = ctx.pick((66000,), (66000, 135000))
+    nonexact = [x for x in KEYS if x != "exact"]
+    for win, mod in ((False, eolmod), (True, winmod)):
+        _all_keys_tree(ctx, filters, mod, win, acc, rng, k, big_sizes)
+    # ordered sections: two different converting settings by extension and a catch-all last;
+    # thorough: every ordered pair, and the single `[name *]` rule for every setting
+    if ctx.tier == "thorough":
+        combos = [(a, b, rng.choice(KEYS)) for a in nonexact for b in nonexact if a != b]
+        combos += [(None, None, key) for key in KEYS]
+    else:
+        a, b = rng.sample(nonexact, 2)
+        combos = [(a, b, rng.choice(KEYS))]
+    for j, (a, b, rest_key) in enumerate(combos):
+        win = bool(ctx.tier == "thorough" and j % 2)
+        mod = winmod if win else eolmod
+        if a is None:
+            sections = [("*", rest_key)]
+            kinds = [("", rest_key), (".txt", rest_key)]
+        else:
+            sections = [("*.txt", a), ("*.c", b), ("*", rest_key)]
+            kinds = [(".txt", a), (".c", b), ("", rest_key), (".txt.c", b)]
+        files, n = [], 0
+        for ext, key in kinds:
+            for c in _small_contents(ctx, filters, mod, key, ctx.pick(4, 6), rng):
+                files.append(("%sg%03d%s" % ("d/" if n % 2 else "", n, ext), key, c))
+                n += 1
+        # WorkingTree5 ("1.14") is the other dirstate format with content filtering
+        fmt = rng.choice(("2a", "1.14")) if ctx.tier != "thorough" else ("2a", "2a", "1.14")[j % 3]
+        _tree_part(ctx, filters, mod, win, sections, files, acc, fmt=fmt)
+        ctx.count("tree-ordered-sections")
+        ctx.count("tree-format:" + fmt)
+    acc.flush(ctx)
 
 
 def run(ctx, L=None, L2=None, nrand=None):
@@ -486,12 +901,8 @@ def run(ctx, L=None, L2=None, nrand=None):
     _settings(ctx, filters, tables, rnd[: nrand // 6], "set-rand", rng=rng)
 
     # trees
-    for key in KEYS:
-        stack = eolmod.eol_lookup(key)
-        contents = [b"", b"plain", b"bin\r\n\x00\n\r"] + _canonical_sample(ctx, filters, stack, 6, ctx.pick(10, 60), rng)
-        if key.endswith("-with-crlf-in-repo"):
-            contents.append(b"a\r\r\nb\r\n")
-        _tree_part(ctx, filters, eolmod, key, contents)
+    _trees(ctx, filters, eolmod, winmod, rng)
+    _join(ctx)
 
 
 def widen(ctx):
@@ -502,11 +913,28 @@ def replay(ctx, case):
     filters, eolmod, winmod = _mods()
     c = bytes.fromhex(case["c"]) if case.get("c", "-") != "-" else b""
     if case.get("kind") == "tree":
-        _tree_part(ctx, filters, eolmod, case["key"], [c], fmt=case.get("fmt", "2a"))
-        return dict(case=case, content=repr(c), oracle_failures=[v["what"] for v in ctx.violations],
-                    mismatches=[m for m in ctx.mismatches if m])
+        win = bool(case.get("win", False))
+        mod = winmod if win else eolmod
+        key = case["key"]
+        sections = [tuple(x) for x in case.get("sections") or [["*", key]]]
+        name = case.get("name", "f00")
+        # the file itself, after one small canonical companion per other section (the choice
+        # of the stack per path / the stack cache is part of what is replayed)
+        files = []
+        for i, (glob, k2) in enumerate(sections):
+            cname = glob.replace("*", "companion%d" % i)
+            if cname != name and _expected_key(sections, cname) == k2:
+                files.append((cname, k2, _canonicalise(k2, b"x\ny\r\n")))
+        files.append((name, key, c))
+        acc = _Acc()
+        _tree_part(ctx, filters, mod, win, sections, files, acc, fmt=case.get("fmt", "2a"), model_names={name})
+        acc.flush(ctx)
+        _join(ctx)
+        return dict(case=dict(case, c=_cid(c)), content=_r(c), oracle_failures=[v["what"] for v in ctx.violations],
+                    families=[v["family"] for v in ctx.violations], mismatches=[m for m in ctx.mismatches if m])
     if case.get("kind") == "conv":
         _converters(ctx, eolmod, [c], "replay")
+        _join(ctx)
         return dict(case=case, content=repr(c), lf=repr(b"".join(eolmod._to_lf_converter([c]))),
                     crlf=repr(b"".join(eolmod._to_crlf_converter([c]))),
                     oracle_failures=[v["what"] for v in ctx.violations], mismatches=[m for m in ctx.mismatches if m])
@@ -517,6 +945,7 @@ def replay(ctx, case):
     disk = _write(filters, stack, [c])
     back = _read(ctx, filters, stack, disk)
     _settings(ctx, filters, [(win, mod)], [c], "replay")
+    _join(ctx)
     m = ctx.model(["rt %s %s %s" % ("T" if win else "F", key, hx(c))])
     return dict(case=case, content=repr(c), canonical=(rd == c), working_tree=repr(disk), read_back=repr(back),
                 impl=hx(back), model=m[0], oracle_failures=[v["what"] for v in ctx.violations],
